@@ -77,6 +77,8 @@ def run_case(tape, tier):
     nested, depth2 = regroup(tape, flat)
     r1 = sched.execute(flat, res)
     r2 = sched.execute(nested, None)
+    sched.check_runaway(r1, res)
+    sched.check_runaway(r2, res)
     v1, v2 = leaf_view(r1), leaf_view(r2)
     res.scenario = lambda: dict(flat=sched.prog_readable(flat), nested_roots=nested["roots"],
                                 groups={k: v["children"] for k, v in nested["nodes"].items() if v["kind"] == "dodoer"})
